@@ -1,7 +1,7 @@
 #!/bin/bash
 # tools/seed_batch.sh Cxx : copy /tmp/seedout/Cxx-* into seeded/, run try_seed on each, log to seeded/logs/
 p="$1"; mkdir -p /verif/seeded/logs
-for d in /tmp/seedout/$p-[0-9]*; do
+for d in /tmp/seedout/$p-${ONLY:-[0-9]*}; do
   s=$(basename "$d"); mkdir -p /verif/seeded/$s; cp "$d"/{patch.diff,demo.py,meta.json} /verif/seeded/$s/ 2>/dev/null
   /verif/tools/try_seed.sh "$p" /verif/seeded/$s > /verif/seeded/logs/$s.log 2>&1
   echo "== $s: $(grep -c '^VIOLATION' /verif/seeded/logs/$s.log) violation lines; $(grep -c 'no-failing-input-found' /verif/seeded/logs/$s.log) nfif; $(grep 'check exit' /verif/seeded/logs/$s.log); $(grep -m1 -A1 '^VIOLATION' /verif/seeded/logs/$s.log | tail -1 | cut -c1-160)"
